@@ -587,6 +587,7 @@ def run(ctx, rep):
     from . import C11
     C11.r11g(ctx, rep, rule="R10i")
     C11.r11k(ctx, rep, rule="R10k")
+    C11.r11n(ctx, rep, rule="R10l")
     rep.rules["R10k"] = "the reader produces no symbol whose written form is a number, bracket or string: " + rep.rules["R10k"]
     rep.rules["R10i"] = "what the printer writes can be sliced back out of the text: " + rep.rules["R10i"]
     from . import numeric
